@@ -1,6 +1,9 @@
 package packet
 
 import (
+	"bytes"
+
+	"github.com/Tnze/go-mc/nbt"
 	vp "github.com/Tnze/go-mc/internal/zzvp"
 )
 
@@ -124,6 +127,49 @@ func VP_C06_opt() {
 		vp.Assert(d == v, "Opt round trip value")
 	} else {
 		vp.Assert(d == d0, "absent Opt leaves the destination alone")
+	}
+	vp.Cover("end")
+}
+
+// NBT fields: network-format NBT, and the byte counts returned equal the bytes
+// actually produced / consumed.
+func VP_C06_nbtfield() {
+	switch vp.Choice(3) {
+	case 0: // nil value: a single TagEnd byte
+		vpCheckWrite(NBTField{V: nil}, []byte{0})
+	case 1: // struct value
+		type T struct {
+			A int32  `nbt:"a"`
+			S string `nbt:"s"`
+		}
+		v := T{A: vp.Int32(), S: string(vp.Bytes(vp.Choice(3)))}
+		var ref []byte
+		ref = append(ref, 10, 3, 0, 1, 'a')
+		ref = append(ref, vpBE(uint64(uint32(v.A)), 4)...)
+		ref = append(ref, 8, 0, 1, 's', 0, byte(len(v.S)))
+		ref = append(ref, v.S...)
+		ref = append(ref, 0)
+		vpCheckWrite(NBT(v), ref)
+		var d T
+		d.A = vp.Int32()
+		vpCheckRead(NBT(&d), ref)
+		vp.Assert(d == v, "NBT field round trip")
+		// unknown fields are refused by NBT() and skipped by AllowUnknownFields
+		ext := append([]byte{10, 1, 0, 1, 'z', 7}, ref[1:]...)
+		var d2 T
+		_, err := NBT(&d2).ReadFrom(bytes.NewReader(ext))
+		vp.Assert(err != nil, "NBT() refuses unknown fields")
+		var d3 T
+		vpCheckRead(NBTField{V: &d3, AllowUnknownFields: true}, ext)
+		vp.Assert(d3 == v, "NBTField with AllowUnknownFields skips them")
+	default: // raw carrier
+		n := vp.Choice(3)
+		payload := vp.Bytes(n)
+		ref := append([]byte{7, 0, 0, 0, byte(n)}, payload...)
+		var m nbt.RawMessage
+		vpCheckRead(NBT(&m), ref)
+		vp.Assert(m.Type == 7 && len(m.Data) == 4+n, "raw NBT field captured")
+		vpCheckWrite(NBT(m), ref)
 	}
 	vp.Cover("end")
 }
